@@ -248,7 +248,7 @@ func init() {
 				}
 				n++
 				key := k.key(f, "handle own message")
-				c.guards(f, call, key, 0, guardRe("WriteSync(msg) = nil", `^nil\(.*\.wal\.WriteSync\(`+q(src)+`\)\)$`))
+				c.guards(f, call, key, 0, guardRe("WriteSync(msg) = nil", `^nil\(.*\.wal\.WriteSync\((`+q(src)+`|`+q(val)+`)\)\)$`))
 			}
 		}
 		if n == 0 {
